@@ -84,9 +84,10 @@ def compare(a, b, _depth=0):
 
 
 def num_text(v):
-    if v == int(v) and abs(v) < 1e15:
-        return str(int(v))
-    return repr(float(v))
+    # the shortest text that reads back as the same double, without a trailing '.0': 5 -> '5', 2.5 -> '2.5',
+    # 2**53 -> '9007199254740992', 1e16 -> '1e+16' (integral values switch to exponent form at 1e16)
+    text = repr(float(v))
+    return text[:-2] if text.endswith('.0') else text
 
 
 def to_json(v, _stack=()):
@@ -494,6 +495,8 @@ def f_stringRepeat(args):
     s, n = check(args, [(S, 'req'), (N, 'req')])
     if not is_ix(n):
         raise Fail(None)
+    if n > 10 ** 6:
+        raise Unspecified('repeat count of CPython magnitude')
     return s * int(n)
 
 
